@@ -250,7 +250,7 @@ def main():
     known, _fixed = load_known()
     known = [k for k in known if k["property"] == pid]
 
-    total = {"paths": 0, "queries": 0, "obligations": 0, "discharged": 0, "trivial": 0, "sat": 0, "unknown": 0,
+    total = {"queries_unsat": 0, "queries_sat": 0, "paths": 0, "queries": 0, "obligations": 0, "discharged": 0, "trivial": 0, "sat": 0, "unknown": 0,
              "solver_s": 0.0, "steps": 0, "merged_regions": 0}
     funcs, externals, reached, labels, per_h = set(), set(), {}, {}, {}
     inconclusive, errors, samples = [], [], []
@@ -283,6 +283,7 @@ def main():
         inconclusive += [tags + ": " + s for s in (summ.get("inconclusive") or [])]
         errors += [tags + ": " + s for s in (summ.get("errors") or [])]
         samples += summ.get("samples") or []
+        samples += [dict(p, kind="path") for p in (summ.get("path_samples") or [])]
         for v in summ.get("violations") or []:
             v["tags"] = tags
             violations.append(v)
@@ -395,6 +396,10 @@ def main():
         "obligations": total["obligations"], "discharged": total["discharged"],
         "discharged_by_solver": total["discharged"] - total["trivial"], "discharged_by_constant_folding": total["trivial"],
         "sat": total["sat"], "unknown": total["unknown"],
+        "solver_queries_unsat": total["queries_unsat"], "solver_queries_sat": total["queries_sat"],
+        "explanation_of_counts": "states = symbolic paths executed; transitions = solver queries (branch/alternative feasibility, concretisation, obligations); "
+                                 "solver_queries_unsat counts refuted alternatives and discharged obligations: in the world harnesses the real code's decisions are "
+                                 "confronted with the model's predicate as branch feasibility, so most final checks are concrete on each path",
         "solver_s": round(total["solver_s"], 2), "ssa_instructions_executed": total["steps"],
         "if_converted_regions": total["merged_regions"],
         "harnesses": [h for h, _ in harness_all], "tagsets": tagsets,
